@@ -1486,4 +1486,95 @@ theorem chunks_agree_b64 (chunk : Nat) (hc4 : chunk % 4 = 0) (hpos : 0 < chunk) 
             simp
       · simp [hok] at h
 
+/-! ### RSAMD5: the chunked read of an unwrapped text -/
+
+def NLFree (s : Bytes) : Prop := ∀ c ∈ s, isNL c = false
+
+theorem fillChunk_nlfree : ∀ (enc : Bytes) (room : Nat) (acc : Bytes), NLFree enc →
+    fillChunk room enc acc = (acc.reverse ++ enc.take room, enc.drop room) := by
+  intro enc
+  induction enc with
+  | nil => intro room acc _; simp [fillChunk]
+  | cons c t ih =>
+    intro room acc h
+    unfold fillChunk
+    by_cases hr : room = 0
+    · simp [hr]
+    · have hc : isNL c = false := h c (by simp)
+      have ht : NLFree t := fun x hx => h x (by simp [hx])
+      simp only [hr, if_false, hc, Bool.false_eq_true]
+      rw [ih (room - 1) (c :: acc) ht]
+      obtain ⟨k, rfl⟩ : ∃ k, room = k + 1 := ⟨room - 1, by omega⟩
+      simp
+
+theorem clean4_length (a b c d : UInt8) (h : Clean [a, b, c, d]) : (b64Decode [a, b, c, d]).1.length = 3 := by
+  obtain ⟨va, ha⟩ := Option.isSome_iff_exists.mp (h a (by simp))
+  obtain ⟨vb, hb⟩ := Option.isSome_iff_exists.mp (h b (by simp))
+  obtain ⟨vc, hc⟩ := Option.isSome_iff_exists.mp (h c (by simp))
+  obtain ⟨vd, hd⟩ := Option.isSome_iff_exists.mp (h d (by simp))
+  simp [b64Decode, decodeAux, quantum_clean4 a b c d [] va vb vc vd ha hb hc hd, emit]
+
+theorem clean_length : ∀ (n : Nat) (c : Bytes), Clean c → c.length = 4 * n → (b64Decode c).1.length = 3 * n := by
+  intro n
+  induction n with
+  | zero => intro c _ hl
+            have : c = [] := List.eq_nil_of_length_eq_zero (by omega)
+            subst this; simp [b64Decode, decodeAux]
+  | succ n ih =>
+    intro c hclean hl
+    match c, hl with
+    | a :: b :: c' :: d :: c'', hl =>
+      have hh : Clean [a, b, c', d] := fun x hx => hclean x (by simp at hx ⊢; rcases hx with h | h | h | h <;> simp [h])
+      have ht : Clean c'' := fun x hx => hclean x (by simp [hx])
+      have := (b64Decode_clean_append 1 [a, b, c', d] c'' hh (by simp)).2
+      simp only [List.cons_append, List.nil_append] at this
+      rw [this]
+      simp only [List.length_append, clean4_length a b c' d hh, ih c'' ht (by simp at hl; omega)]
+      omega
+
+/-- every chunk but the last holds only alphabet characters. -/
+def ChunksClean (chunk : Nat) : Nat → Bytes → Prop
+  | 0, _ => True
+  | f + 1, s => s.length ≤ chunk ∨ (Clean (s.take chunk) ∧ ChunksClean chunk f (s.drop chunk))
+
+theorem rsamd5Fed_unwrapped (chunk : Nat) (h4 : chunk % 4 = 0) (hpos : 0 < chunk) : ∀ (f : Nat) (pk : Bytes),
+    pk.length < f → NLFree pk → ChunksClean chunk f pk →
+      rsamd5Fed b64Decode chunk f pk = (b64Decode pk).1 := by
+  intro f
+  induction f with
+  | zero => intro pk h; omega
+  | succ f ih =>
+    intro pk hlen hnl hcc
+    unfold rsamd5Fed
+    by_cases he : pk.isEmpty = true
+    · have : pk = [] := by simpa using he
+      subst this; simp [b64Decode, decodeAux]
+    · simp only [he, Bool.false_eq_true, if_false, fillChunk_nlfree pk chunk [] hnl, List.reverse_nil, List.nil_append]
+      by_cases hshort : pk.length ≤ chunk
+      · have hd : pk.drop chunk = [] := List.drop_eq_nil_iff.mpr hshort
+        have ht : pk.take chunk = pk := List.take_of_length_le hshort
+        rw [hd, ht]
+        cases f with
+        | zero => simp [rsamd5Fed]
+        | succ f' => simp [rsamd5Fed]
+      · have hlong : chunk < pk.length := by omega
+        unfold ChunksClean at hcc
+        rcases hcc with h | ⟨hclean, hrest⟩
+        · omega
+        · have hcl : (pk.take chunk).length = 4 * (chunk / 4) := by rw [List.length_take]; omega
+          have happ := b64Decode_clean_append (chunk / 4) _ (pk.drop chunk) hclean hcl
+          have hfull := clean_length (chunk / 4) _ hclean hcl
+          rw [List.take_append_drop] at happ
+          have hdne : (pk.drop chunk).isEmpty = false := by
+            cases hx : pk.drop chunk with
+            | nil => exact absurd (List.drop_eq_nil_iff.mp hx) (by omega)
+            | cons _ _ => rfl
+          have hnot : ¬ ((b64Decode (List.take chunk pk)).1.length < chunk / 4 * 3) := by rw [hfull]; omega
+          simp only [happ.1, Bool.not_true, Bool.false_eq_true, if_false, hdne, Bool.not_false, Bool.true_and,
+            decide_eq_true_eq, hnot]
+          rw [happ.2]
+          simp only
+          congr 1
+          exact ih _ (by rw [List.length_drop]; omega) (fun x hx => hnl x (List.mem_of_mem_drop hx)) hrest
+
 end SdnsVerif.Lemmas.DnssecPrim
